@@ -27,6 +27,9 @@ type popCfg struct {
 	respectGating bool
 	ver           *kmip.ProtocolVersion
 	extTags       bool // opaque generic trees use extension-range tags only
+	// strGen, when set, replaces the built-in text string generator (the text engine draws from a wider alphabet
+	// and longer lengths); nil = the built-in one, whose random stream the other engines depend on.
+	strGen func() string
 }
 
 func (p *popCfg) gatedOut(t reflect.Type, fieldName string) bool {
@@ -77,6 +80,9 @@ func (p *popCfg) want() bool {
 }
 
 func (p *popCfg) genString() string {
+	if p.strGen != nil {
+		return p.strGen()
+	}
 	r := p.r
 	n := r.Intn(12)
 	if r.Chance(1, 6) {
